@@ -242,8 +242,10 @@ class PiecewiseLinearCopulas(Lemma):
     """independent and completely dependent copulas, d = 2, 3: grounded, margins = identity, and every rectangle (a, b]
     with finite or +inf upper corners has a non-negative volume (real __call__ bodies; z3 decides all branch combinations)"""
     prop = "C11"
+    # upper corners: f(inite) / i(nfinite, +inf);  "lower|upper": lower corners f(inite) / n (-inf), at least one -inf
     cases = tuple((c, d, k) for c in ("IndependentComponentsCopula", "DependentComponentsCopula") for d in (2, 3)
-                  for k in ["grounded-margins"] + ["".join(p) for p in itertools.product("fi", repeat=d)])
+                  for k in ["grounded-margins"] + ["".join(p) for p in itertools.product("fi", repeat=d)]
+                  + ["".join(lo) + "|" + "".join(up) for lo in itertools.product("fn", repeat=d) if "n" in lo for up in itertools.product("fi", repeat=d)])
 
     def __init__(self):
         self.name = "property:piecewise-linear-copulas"
@@ -265,20 +267,44 @@ class PiecewiseLinearCopulas(Lemma):
                 m = it.call(it.call(margin, [cop, [i], d], {}), [np.array([u], dtype=object)], {})
                 vc.check(nm + f"::margin{i}-is-the-identity", m == u)
             return
-        a = vc.reals("a", d)
+        lows, ups = (kind.split("|") if "|" in kind else ("f" * d, kind))
+        a = [(-INF if lows[k] == "n" else x) for k, x in enumerate(vc.reals("a", d))]
         b = []
         for k in range(d):
-            if kind[k] == "f":
+            if ups[k] == "f":
                 bk = vc.real(f"b_{k}")
-                vc.assume(a[k] < bk)
+                if lows[k] == "f":
+                    vc.assume(a[k] < bk)
             else:
                 bk = INF
             b.append(bk)
-        vol = 0
+        # volume by inclusion-exclusion over the corners, in extended-real arithmetic: finite terms are summed; a corner
+        # contributing +inf makes the volume +inf (fine), one contributing -inf makes it -inf (a violation); both at once is
+        # the indeterminate form -- the corner formula cannot express that volume, no verdict
+        import math
+        vol, plus, minus, nan = 0, False, False, False
         for p in itertools.product((0, 1), repeat=d):
             term = F([b[k] if p[k] else a[k] for k in range(d)])
-            vol = vol + term if (d - sum(p)) % 2 == 0 else vol - term
-        vc.check(nm + "::rectangle-volume-non-negative", vol >= 0)
+            sgn = 1 if (d - sum(p)) % 2 == 0 else -1
+            if not is_sym(term) and isinstance(term, (float, np.floating)) and (math.isinf(term) or math.isnan(term)):
+                if math.isnan(term):
+                    nan = True
+                elif sgn * term > 0:
+                    plus = True
+                else:
+                    minus = True
+                continue
+            vol = vol + term if sgn > 0 else vol - term
+        if nan:
+            vc.check(nm + "::corner-values-are-not-nan", False)
+        elif plus and minus:
+            vc.path.cover(nm + "::indeterminate-corner-sum")
+        elif minus:
+            vc.check(nm + "::rectangle-volume-non-negative", False)
+        elif plus:
+            vc.check(nm + "::rectangle-volume-non-negative", True)
+        else:
+            vc.check(nm + "::rectangle-volume-non-negative", vol >= 0)
 
     def replay(self, model, clause, case):
         import importlib
@@ -299,9 +325,10 @@ class PiecewiseLinearCopulas(Lemma):
                     z = np.array([0.0 if k == i else 0.3 * (k + 1) for k in range(d)])
                     bad = bad or float(C(z)) != 0.0
             return (bool(bad), {"copula": cls, "dimension": d, **out})
+        lows, ups = (kind.split("|") if "|" in kind else ("f" * d, kind))
         am = model.get("a") if isinstance(model.get("a"), list) else [None] * d
-        a = [f(am[k], -1.0 + k) for k in range(d)]
-        b = [f(model.get(f"b_{k}"), a[k] + 1.0) if kind[k] == "f" else np.inf for k in range(d)]
+        a = [(-np.inf if lows[k] == "n" else f(am[k], -1.0 + k)) for k in range(d)]
+        b = [f(model.get(f"b_{k}"), (a[k] if np.isfinite(a[k]) else -2.0) + 1.0) if ups[k] == "f" else np.inf for k in range(d)]
         vol = 0.0
         for p in itertools.product((0, 1), repeat=d):
             vol += (-1) ** (d - sum(p)) * C(np.array([b[k] if p[k] else a[k] for k in range(d)]))
